@@ -8,7 +8,8 @@
  * Oracle (from the property statement): multiset union - every yielded value observed exactly once, nothing else; each source's values
  * in that source's order; end when and only when all sources have ended; a source's exception loses nothing of the others and is
  * reported (after everything else); arguments go to the source whose value was returned last; destruction while parked destroys every
- * source's locals exactly once and leaks nothing (allocations == deallocations). */
+ * source's locals exactly once and leaks nothing (allocations == deallocations); destruction WAITS for the in-flight sources: every wait
+ * for a source comes before any source is destroyed, a source is destroyed only when nobody is in flight (C14-ORDER-*, see CHECK_ORDER). */
 #define OBS(i) ((*G_OBS)[i])
 #define NOBS (*G_NOBS)
 #define END (*G_END)
@@ -23,7 +24,7 @@ void ab_notify(ATOMB *flag) { gh_notify_calls++; }
 #endif
 #define TAG(i, j) ((cv_i32)(2 * (i) + (j) + 1) << 24)
 #define SYM(i, j) (TAG(i, j) | ((cv_i32)nondet_int() & 0xFFFFFF))
-static unsigned allocs0, frees0, typed0;
+static unsigned allocs0, frees0, typed0, pushes0, pops0;
 static void drive_reset(void) {
   NOBS = 0; END = 0; *G_EXC_N = 0; *G_EXC_AT = 0; *G_EXC_VAL = 0; *G_NMV = 0; *G_OTHER_EXC = 0; *G_CTOR = 0; *G_DTOR = 0; *G_NARGS = 0;
   for (int i = 0; i < 8; i++) OBS(i) = 0;
@@ -33,6 +34,7 @@ static void drive_reset(void) {
 #ifdef CV_HAS_vc_ctor
   cvv_cb_used = 0;
 #endif
+  gh_src_frames_made = 0; gh_src_frames_destroyed = 0; pq_head = pq_tail = 0; pushes0 = gh_pq_pushes; pops0 = gh_pq_pops;      /* ORDER obligations: see CHECK_ORDER */
   allocs0 = gh_allocs; frees0 = gh_frees; typed0 = gh_frames_typed; gh_wait_calls = 0; }
 /* position of value v in the observed sequence (-1: absent); *cnt = number of occurrences */
 static int find_obs(cv_i32 v, int *cnt) { int pos = -1; int c = 0; for (int p = 0; p < 8; p++) if (p < (int)NOBS && OBS(p) == v) { if (pos < 0) pos = p; c++; } *cnt = c; return pos; }
@@ -41,6 +43,16 @@ static int find_obs(cv_i32 v, int *cnt) { int pos = -1; int c = 0; for (int p = 
   __CPROVER_assert(gh_allocs - allocs0 == gh_frees - frees0, "nothing leaks: every allocation (frames, vector buffers) is released exactly once"); \
   __CPROVER_assert(gh_frames_typed - typed0 == (frames), "one coroutine frame per source plus the aggregator's"); \
   __CPROVER_assert(gh_allocs - allocs0 == (frames) + gh_vec_attached - vec0, "no allocation besides frames and the two vector buffers"); } while (0)
+/* ORDER (clause "destroying the aggregate while parked waits for in-flight asynchronous sources and leaks nothing"; added for seeded change
+ * C14-1, where the vector owning the sources died BEFORE the controller's drain): the two obligations proper sit where the events happen -
+ *   C14-ORDER-wait-before-destroy  in pq_pop()                  (specs/C14/drive_models.h): at every wait for a source no source is dead yet
+ *   C14-ORDER-destroy-after-wait   in cv_on_src_frame_destroy() (ditto):                    when a source dies nobody is in flight any more
+ * with source frames counted by lib/model_heap_frames_src.c.  Here: the ghost they rest on is alive (every source frame of the scenario
+ * was seen being made and being destroyed - otherwise both would hold vacuously) and, once the aggregate is gone, every source that was
+ * asked has been waited for. */
+#define CHECK_ORDER(n) do { \
+  __CPROVER_assert(gh_src_frames_made == (unsigned)(n) && gh_src_frames_destroyed == (unsigned)(n), "order ghost: every source coroutine frame of the scenario was seen being created and being destroyed, exactly once"); \
+  __CPROVER_assert(gh_pq_pushes - pushes0 == gh_pq_pops - pops0, "once the aggregate is gone every source it asked has been waited for: as many completions taken from the completion queue as sources put there"); } while (0)
 /* every value of source i (k of them: a, b) was observed exactly once, in source order; returns nothing, fills pos[] */
 #define CHECK_SOURCE(i, k, a, b, pa, pb) do { int c_; \
   if ((k) > 0) { pa = find_obs(a, &c_); __CPROVER_assert(c_ == 1, "every value a source yields is observed exactly once (1st value)"); } \
@@ -81,7 +93,7 @@ void h_drive(void) {
       __CPROVER_assert(seen == stop, "every observed value is a value some source yielded"); }
     int started = stop != 0 ? n : 0;             /* never asked: the aggregator body never ran, no source was ever activated */
     __CPROVER_assert(*G_CTOR == started && *G_DTOR == started, "every activated source's locals are destroyed exactly once (also when the parked aggregate is dropped)");
-    CHECK_HEAP(n + 1);
+    CHECK_HEAP(n + 1); CHECK_ORDER(n);
     runs++; }
   __CPROVER_assert(runs == NSH, "drive: every shape was run");
   __CPROVER_assert(0, "SENTINEL reachable: all shapes completed"); }
@@ -115,7 +127,7 @@ void h_drive(void) {
       if (k[i] > 0) __CPROVER_assert(nth_arg(i, 1, &got) && got == x[pa + 1], "an argument goes to the source whose value was returned last (after its 1st value)");
       if (k[i] > 1) __CPROVER_assert(nth_arg(i, 2, &got) && got == x[pb + 1], "an argument goes to the source whose value was returned last (after its 2nd value)"); }
     __CPROVER_assert(*G_CTOR == n && *G_DTOR == n, "every source ran and its locals were destroyed exactly once");
-    CHECK_HEAP(n + 1);
+    CHECK_HEAP(n + 1); CHECK_ORDER(n);
     runs++; }
   __CPROVER_assert(runs == NSH, "drive: every shape was run");
   __CPROVER_assert(0, "SENTINEL reachable: all shapes completed"); }
@@ -172,7 +184,7 @@ void h_drive(void) {
 #endif
     __CPROVER_assert(*G_AGAIN == 9 || *G_AGAIN == 0 || (style == 1 && *G_AGAIN == -2), "asking once more after the end indication: the end again (call: or no_more_values_exception), never a value, never an exception of a source");
     __CPROVER_assert(*G_CTOR == n && *G_DTOR == n, "every source's locals are destroyed exactly once");
-    CHECK_HEAP(n + 1);
+    CHECK_HEAP(n + 1); CHECK_ORDER(n);
     runs++; }
   __CPROVER_assert(runs == NSHT, "drive: every shape was run");
   __CPROVER_assert(0, "SENTINEL reachable: all shapes completed"); }
